@@ -775,7 +775,10 @@ def mkBV (v : BvVal) (width : Option Nat) : Prog Id :=
       | some w => if w = sw then fromInt n (some sw) else failP .valueError
       | none => fromInt n (some sw)
   | .int n => fromInt n width
-  | .other => failP .typeError
+  | .other =>
+    match width with
+    | none => failP .valueError
+    | some _ => failP .typeError
 
 def mkSBV (v : BvVal) (width : Option Nat) : Prog Id :=
   match v with
